@@ -15,6 +15,7 @@ EXTENDS Elements, Titles
 KeepFalsyDefault      == TRUE   \* _parse_composition: `default or element.default`
 SingleTypeKeepsDefault == TRUE  \* _parse_multi_typed, one-element type list
 NothingDefaultWrapped == TRUE   \* _parse_composition: AllOf(Nothing(), default=d)
+InnerDefaultKept == TRUE           \* _parse_composition: outer default does not overwrite the only member's
 SyntheticFollowsAdditional == TRUE  \* _parse_object: undeclared required names get the additional element
 
 CompKws == {"anyOf", "oneOf", "allOf", "not"}
@@ -158,6 +159,8 @@ ParseComposition(S, P, t) ==
      ELSE IF element.cls = "Object"
           THEN MkComp("AllOf", <<element>>, IF hasD THEN [default |-> P.default] ELSE EmptyKw)
      ELSE IF NothingDefaultWrapped /\ element.cls = "Nothing" /\ hasD
+          THEN MkComp("AllOf", <<element>>, [default |-> P.default])
+     ELSE IF InnerDefaultKept /\ hasD /\ K(element, "default")
           THEN MkComp("AllOf", <<element>>, [default |-> P.default])
      ELSE IF hasD /\ (KeepFalsyDefault \/ Truthy(P.default))
           THEN [element EXCEPT !.kw = [k \in DOMAIN element.kw \cup {"default"} |->
